@@ -122,6 +122,14 @@ def build():
             sim.schedule_event_now(self, "arrive")
             for k in range(3):           # equal time, equal priority: id order
                 sim.schedule_event_abs(1.0, self, "extra", 5, who="init%d" % k)
+            # events exactly at the end of the replication, and long-pending
+            # events that tie with events created much later (see 'extra')
+            for k in range(2):
+                sim.schedule_event_abs(END, self, "extra", 5, who="end%d" % k)
+            for tt in (2.0, 4.0, 6.0, 8.0):
+                sim.schedule_event_abs(tt + 0.5, self, "extra", 5,
+                                       who="old%g" % tt)
+                sim.schedule_event_abs(tt, self, "extra", 5, who="mk%g" % tt)
 
         def hook(self, name):
             self.nh += 1
@@ -152,6 +160,16 @@ def build():
 
         def extra(self, who):
             self.hook("extra:%s" % who)
+            if who.startswith("mk"):
+                # created now, same time and priority as the old one
+                self.simulator.schedule_event_abs(
+                    float(who[2:]) + 0.5, self, "extra", 5,
+                    who="new" + who[2:])
+            if who == "mk2":
+                # created in the middle of the run, pending for a long time
+                for tt in (4.5, 6.5, 8.5):
+                    self.simulator.schedule_event_abs(tt, self, "extra", 5,
+                                                      who="far%g" % tt)
             if self.late and who == "init1":
                 # a monitor created by the model while the run is under way
                 self.monitor = Late(self)
@@ -245,6 +263,31 @@ def run_pattern(pattern, s=None, nmax=None, late=False):
     elif pattern[0] == "upto":
         sim.run_up_to(pattern[1])
         wait()
+    elif pattern[0] == "other-sim":
+        # while this run is paused, an unrelated model is set up and run to
+        # its end on another simulator in the same process
+        sim.run_up_to(pattern[1])
+        wait()
+        from pydsol.core.model import DSOLModel
+
+        class Tiny(DSOLModel):
+            def construct_model(self):
+                self.simulator.schedule_event_abs(1.0, self, "tick")
+
+            def tick(self):
+                pass
+        sim2 = DEVSSimulatorFloat("other")
+        m2 = Tiny(sim2)
+        sim2.initialize(m2, SingleReplication("r2", 0.0, 0.0, 4.0))
+        sim2.start()
+        n2 = 0
+        while s is None and sim2.is_starting_or_running() and n2 < 60000:
+            _t.sleep(0.0005)
+            n2 += 1
+        if s is not None:
+            s.wait_quiescent()
+        sim2.cleanup()
+        wait()
     for _ in range(6):
         try:
             sim.start()
@@ -308,7 +351,9 @@ def child_main(kind):
     with contextlib.redirect_stdout(io.StringIO()), \
             contextlib.redirect_stderr(io.StringIO()):
         out["run"] = one(("run",))
-        pats = [("step-all",), ("upto", 3.0), ("upto", WARM), ("upto", 1.0)]
+        pats = [("step-all",), ("upto", 3.0), ("upto", WARM), ("upto", 1.0),
+                ("upto", END), ("upto", END + 1.0), ("other-sim", 3.0),
+                ("other-sim", 1.0)]
         pats += [("stop-at", k) for k in range(1, 40)]
         for p in pats:
             out["/".join(str(x) for x in p)] = one(p)
